@@ -115,8 +115,9 @@ def c03(tier, seed):
     stages = [disp_stage('c03'), disp_stage('c01_' + t)]
     if tier != 'quick':
         stages += [randomized(x, seed) for x in stages]
+    stages.append(twins_stage(t))
     return dict(stages=stages,
-                rule='protocol errors over 7 codes x 3 messages x 8 data shapes and 8 exception types, each as call, as '
+                rule='(plus: calls that do / do not validate against look-alike validated methods on one dispatcher, in every call order) protocol errors over 7 codes x 3 messages x 8 data shapes and 8 exception types, each as call, as '
                      'notification and inside batches, plus every rejection class; and the C01 corpus; non-trivial = a method ran',
                 assumptions=ASSUME_DISP + ['"nothing about the exception appears" is observed as: neither the marker '
                                            'string put into the exception, nor any exception type name, occurs in the response text'],
@@ -390,6 +391,13 @@ def c18(tier, seed):
 
 
 
+def twins_stage(t):
+    """look-alike validated methods (same function name, qualified name and parameter names, different annotations / schemas)
+    served by one dispatcher in every call order: each call's outcome depends on the call alone"""
+    return Stage('twins', emit=('HistoryMC', 'Twins_%s_emit.cfg' % t), driver='twins', trace=('TwinsTrace', 'TwinsTrace.cfg'),
+                 nontrivial=lambda tr: len(tr['ev']) >= 2)
+
+
 def c13(tier, seed):
     import random
     quick = tier == 'quick'
@@ -407,8 +415,7 @@ def c13(tier, seed):
         Stage('history', mc=('HistoryMC', 'History_%s.cfg' % t), emit=('HistoryMC', 'History_%s_emit.cfg' % t),
               driver='history', trace=('DispatcherTrace', 'DispatcherTrace.cfg'), extra_scenarios=threads,
               nontrivial=lambda tr: len(tr['ev']) >= 3),
-        Stage('twins', emit=('HistoryMC', 'Twins_%s_emit.cfg' % t), driver='twins', trace=('TwinsTrace', 'TwinsTrace.cfg'),
-              nontrivial=lambda tr: len(tr['ev']) >= 2),
+        twins_stage(t),
         Stage('retention', driver='retention', trace=('HistoryTrace', 'HistoryTrace.cfg'), extra_scenarios=retention,
               deviations={'ViewSignatureCache': 'HistoryTrace_dev_ViewSignatureCache.cfg'},
               nontrivial=lambda tr: len(tr['ev']) >= 10)],
@@ -431,8 +438,8 @@ def c14(tier, seed):
     t = 'quick' if tier == 'quick' else 'thorough'
     return dict(stages=[Stage('validation', mc=('ValidationMC', 'Validation_%s.cfg' % t), emit=('ValidationMC', 'Validation_%s_emit.cfg' % t),
                               driver='validation', trace=('ValidationTrace', 'ValidationTrace.cfg'), sanity_events=('Sanity',),
-                              nontrivial=lambda tr: any(e['ev'] == 'Exec' for e in tr['ev']))],
-                rule='validators {JsonSchemaValidator, PydanticValidator with / without coercion} x signatures of 2 parameters over '
+                              nontrivial=lambda tr: any(e['ev'] == 'Exec' for e in tr['ev'])), twins_stage(t)],
+                rule='(plus: look-alike validated methods on one dispatcher in every call order) validators {JsonSchemaValidator, PydanticValidator with / without coercion} x signatures of 2 parameters over '
                      'every pair of per-parameter schema fragments (integer, minimum, maximum, string enum, boolean, array of '
                      'integers; required / additionalProperties) or annotations (int, str, bool, Optional[int], List[int]) x last '
                      'parameter with / without default x positional prefixes and named subsets x %d argument values per parameter '
